@@ -632,7 +632,7 @@ def run_soundfile(cfg):
     ob = dis = 0
     state = {}
 
-    class SF:
+    class SF:                                  # what was decoded is part of the token's identity
         def __init__(s, rfilename, **kw):
             s.subtype = state['subtype']
 
@@ -642,11 +642,16 @@ def run_soundfile(cfg):
         def __exit__(s, *a):
             pass
 
-        def read(s, dtype=None):
-            return Arr('sf', dtype)
+        def read(s, dtype=None, **kw):
+            # libsndfile rescales when asked for another sample type than the stored one: a different array
+            return Arr('sf decoded as %s' % (dtype,), dtype)
 
     class NP:
-        float32, float64, int8, uint8, int32, int16 = 'float32', 'float64', 'int8', 'uint8', 'int32', 'int16'
+        float32, float64, int8, uint8, int32, int16, int64 = 'float32', 'float64', 'int8', 'uint8', 'int32', 'int16', 'int64'
+
+        @staticmethod
+        def dtype(d):
+            return d
     ns = loader.load_unit('util', dict(np=NP), name='pydrobert.speech.util')
     sfm = types.ModuleType('soundfile')
     sfm.SoundFile = SF
@@ -654,14 +659,16 @@ def run_soundfile(cfg):
     sys.modules['soundfile'] = sfm
     try:
         for sub, want in (('PCM_16', 'int16'), ('PCM_32', 'int32'), ('PCM_24', 'int32'), ('FLOAT', 'float32'), ('DOUBLE', 'float64')):
-            for dt in (None, 'DT'):
+            for dt in (None, 'DT', 'int16', 'int32', 'int64', 'float32', 'float64'):
                 ob += 1
                 state['subtype'] = sub
                 got = ns['_soundfile_read_signal']('x.flac', dt, None)
-                if got == Arr('sf', dt or want):
+                # decoded in the stored sample type, the requested dtype applied as a final cast
+                if got == Arr('sf decoded as %s' % want, dt or want):
                     dis += 1
                 else:
-                    viol.append(dict(kind='soundfile', what='subtype %s dtype=%r: %r' % (sub, dt, got), **{'class': 'soundfile/' + sub}))
+                    viol.append(dict(kind='soundfile', sub=sub, dt=dt, what='subtype %s dtype=%r: %r, documented %r' % (sub, dt, got, Arr('sf decoded as %s' % want, dt or want)),
+                                     **{'class': 'soundfile/%s/%s' % (sub, dt)}))
     finally:
         if saved is not None:
             sys.modules['soundfile'] = saved
@@ -862,6 +869,40 @@ def replay(w):
                 if r is not None:
                     return {'reproduced': True, 'detail': 'wds_read_signal(%r, garbage) returned data' % key}
             return {'reproduced': False, 'detail': 'wds_read_signal swallows everything'}
+        if k == 'soundfile':
+            import soundfile as sf
+            sub, dt = w['sub'], w.get('dt')
+            stored = {'PCM_16': np.int16, 'PCM_32': np.int32, 'PCM_24': np.int32, 'FLOAT': np.float32, 'DOUBLE': np.float64}[sub]
+            fmt = 'FLAC' if sub in ('PCM_16', 'PCM_24') else 'WAV'
+            dts = [np.int16, np.int32, np.int64, np.float32, np.float64] if dt == 'DT' else [None if dt is None else np.dtype(dt).type]
+            for nch in (1, 2):
+                if stored in (np.float32, np.float64):
+                    data = rng.uniform(-1, 1, size=(7, nch)).astype(stored)
+                elif sub == 'PCM_24':
+                    data = (rng.randint(-2 ** 23, 2 ** 23, size=(7, nch)) * 256).astype(np.int32)     # soundfile: 24-bit samples in the upper bytes
+                else:
+                    info = np.iinfo(stored)
+                    data = rng.randint(info.min, info.max, size=(7, nch)).astype(stored)
+                path = os.path.join(work, 'a%d.%s' % (nch, 'flac' if fmt == 'FLAC' else 'sfwav'))
+                sf.write(path, data, 16000, subtype=sub, format=fmt)
+                for d in dts:
+                    want = data if d is None else data.astype(d)
+                    for how in ('path', 'stream'):
+                        try:
+                            if how == 'path':
+                                got = util.read_signal(path, dtype=d, force_as='flac' if fmt == 'FLAC' else 'soundfile')
+                            else:
+                                with open(path, 'rb') as f:
+                                    got = util.read_signal(f, dtype=d, force_as='flac' if fmt == 'FLAC' else 'soundfile')
+                        except Exception as e:
+                            return {'reproduced': True, 'detail': 'reading a %s %s file (%s, dtype=%s) raised %s: %s' % (sub, fmt, how, d, type(e).__name__, e)}
+                        got = np.asarray(got)
+                        if got.shape != want.shape and got.reshape(want.shape).shape == want.shape and nch == 1:
+                            got = got.reshape(want.shape)
+                        if got.dtype != want.dtype or got.shape != want.shape or not np.array_equal(got, want):
+                            return {'reproduced': True, 'detail': '%s %s file written from %s data, read (%s) with dtype=%s: %s %s, first sample %r; written data cast gives %r' % (
+                                sub, fmt, np.dtype(stored).name, how, None if d is None else np.dtype(d).name, got.dtype, got.shape, got.ravel()[:1].tolist(), want.ravel()[:1].tolist())}
+            return {'reproduced': False, 'detail': 'soundfile-backed containers read back bit-identically, dtype applied as a final cast'}
         return {'reproduced': True, 'detail': w['what']}
     finally:
         shutil.rmtree(work, ignore_errors=True)
